@@ -90,6 +90,11 @@ def gen_refschema(r):
                 fields[-1]["unit"] = "x"
         decls.append({"kind": "struct", "name": nm, "fields": fields})
         types.append(("struct", nm))
+        if r.random() < 0.35:
+            # an explicit binding right behind its struct, half of them renamed (impl p for S as Alias): binding
+            # names are not type names
+            alias = long_ident(r, used) if r.random() < 0.5 else None
+            decls.append({"kind": "impl", "protocol": r.choice(["can", "uart"]), "type": nm, "name": alias, "items": [("field", "id", i)]})
     return decls
 
 
@@ -138,6 +143,21 @@ def mutate(r, decls, kind):
         di = r.choice(structs)
         f = r.choice(decls[di]["fields"])
         f["type"] = replace_leaf(wrap(r, ("u", 8)) if leaf_of(f["type"])[0] not in ("struct", "enum") else f["type"], ("struct", decls[di]["name"]))
+        return decls
+    if kind == "alias":
+        # a field whose type is the NAME OF A BINDING (impl p for S as Alias) declared before it
+        aliases = [(i, d["name"]) for i, d in enumerate(decls) if d["kind"] == "impl" and d["name"]]
+        if not aliases:
+            return None
+        ai, alias = r.choice(aliases)
+        later = [i for i, d in enumerate(decls) if d["kind"] == "struct" and i > ai]
+        if not later:
+            decls.append({"kind": "struct", "name": "User" + alias, "fields": [{"name": "u_" + alias.lower(), "id": 0, "type": ("u", 8)}]})
+            later = [len(decls) - 1]
+        # the first later struct, so that this is the first unresolved reference of the file
+        f = decls[later[0]]["fields"][0]
+        f["type"] = wrap(r, ("struct", alias))
+        f.pop("range", None)
         return decls
     if not refs:
         return None
@@ -281,7 +301,7 @@ def one_schema(run, i, tmp):
         run.case(sig="pos|" + p)
     if not paths:
         run.case(sig="pos|noref")
-    for kind in ("undeclared", "forward", "self", "misspelled"):
+    for kind in ("undeclared", "forward", "self", "misspelled", "alias"):
         rr = run.rng("mut", i, kind)
         m = mutate(rr, decls, kind)
         if m is None:
